@@ -365,3 +365,24 @@ func intBinop(op token.Token, a, b oInt) (oval, bool) {
 }
 
 var _ = fmt.Sprint
+
+// oTokF is a formatted float inside a modelled byte string (what strconv wrote for rank r).
+type oTokF struct{ r int64 }
+
+// appendVals appends with Go's aliasing behaviour (in place when the capacity allows).
+func appendVals(s oSlice, add []oval) oSlice {
+	n := s.length() + len(add)
+	if s.arr != nil && n <= s.capacity() {
+		for i, v := range add {
+			(*s.arr)[s.hi+i] = v
+		}
+		s.hi += len(add)
+		return s
+	}
+	arr := make([]oval, n)
+	for i := 0; i < s.length(); i++ {
+		arr[i] = s.at(i)
+	}
+	copy(arr[s.length():], add)
+	return oSlice{typ: s.typ, arr: &arr, lo: 0, hi: n, capEnd: n}
+}
